@@ -403,6 +403,10 @@ func (ctx *EvalCtx) resolveFuncExpr(e ast.Expr) *ssa.Function {
 				if sp := W.spkgs[pkg.Path()]; sp != nil {
 					return sp.Func(x.Sel.Name)
 				}
+				// a dependency (no body; usable in contracts when it is an effect-free function of plain values)
+				if sp := W.prog.ImportedPackage(pkg.Path()); sp != nil {
+					return sp.Func(x.Sel.Name)
+				}
 			}
 		}
 	}
